@@ -192,6 +192,40 @@ def pad8(n):
     return z3.If(n % 8 != 0, 8 - n % 8, 0)
 
 
+ATTR_CODE = {'path': 1, 'interface': 2, 'member': 3, 'error_name': 4, 'reply_serial': 5, 'destination': 6, 'sender': 7, 'signature': 8, 'unix_fds': 9}
+
+
+def LAST(raw, le, k, c):
+    """(present, kind, s, i): the value of the last header field with code c among the first k fields of the decoded header
+       LAST(0, c) = absent ;  LAST(k+1, c) = field k if its code is c else LAST(k, c)"""
+    key = (raw, le, k, z3.IntVal(c))
+    return (ufun('last_present', StringSort, BoolSort, IntSort, IntSort, BoolSort)(*key),
+            ufun('last_kind', StringSort, BoolSort, IntSort, IntSort, IntSort)(*key),
+            ufun('last_s', StringSort, BoolSort, IntSort, IntSort, StringSort)(*key),
+            ufun('last_i', StringSort, BoolSort, IntSort, IntSort, IntSort)(*key))
+
+
+def unfold_last(ctx, raw, le, k):
+    codes, kinds, strs, ints = hdr_fields(raw, le)
+    for c in ATTR_CODE.values():
+        p0 = LAST(raw, le, z3.IntVal(0), c)
+        ctx.assume(z3.Not(p0[0]))
+        cur, nxt = LAST(raw, le, k, c), LAST(raw, le, k + 1, c)
+        hit = codes[k] == c
+        ctx.assume(z3.Implies(z3.And(k >= 0, k < z3.Length(codes)),
+                              z3.And(nxt[0] == z3.Or(hit, cur[0]), nxt[1] == z3.If(hit, kinds[k], cur[1]),
+                                     nxt[2] == z3.If(hit, strs[k], cur[2]), nxt[3] == z3.If(hit, ints[k], cur[3]))))
+
+
+def attr_is_last(mv, raw, le, k):
+    out = []
+    for a, c in ATTR_CODE.items():
+        pres, kd, st, it = LAST(raw, le, k, c)
+        fv = getattr(mv, a)
+        out.append(z3.If(pres, z3.And(fv.kind == kd, fv.s == st, fv.i == it), fv.kind == 0))
+    return z3.And(out)
+
+
 def parse_world():
     from txdbus import message, marshal
     from txdbus.error import MarshallingError
@@ -255,13 +289,16 @@ def parse_world():
                 ('raw header / padding to 8 / body split at the decoded header length',
                  z3.And(m.rawHeader == S.slice_(cx.ctx, raw, z3.IntVal(0), n), m.rawPadding == S.slice_(cx.ctx, raw, n, n + npad),
                         m.rawBody == S.slice_(cx.ctx, raw, n + npad, None))),
-                ('body decoded under the parsed signature in the byte order of the first byte', body_ok)]
+                ('body decoded under the parsed signature in the byte order of the first byte', body_ok),
+                ('every header attribute is the value of the LAST header field carrying its code (unknown codes ignored), unset when there is none',
+                 attr_is_last(m, raw, le, z3.Length(hdr_fields(raw, le)[0])))]
 
     def loop_inv(cx):
         m = cx.L['m']
         mv = cx.new(m)
         raw = cx.a('rawMessage')
         le = le_of(raw)
+        unfold_last(cx.ctx, raw, le, cx.l('_k1'))
         fl, n = hdr_int(raw, le, 2), hdr_len(raw, le)
         return [('signature-is-unset-or-a-string', z3.Or(mv.signature.kind == 0, mv.signature.kind == 2)),
                 ('serial-kept', z3.And(z3.Not(mv.serial.none), mv.serial.val.term == hdr_int(raw, le, 5))),
@@ -270,6 +307,7 @@ def parse_world():
                 ('raw-padding-kept', mv.rawPadding == S.slice_(cx.ctx, raw, n, n + pad8(n))),
                 ('raw-body-kept', mv.rawBody == S.slice_(cx.ctx, raw, n + pad8(n), None)),
                 ('no-body-yet', mv.body.none),
+                ('each header attribute holds the last field seen so far with its code, or is unset', attr_is_last(mv, raw, le, cx.l('_k1'))),
                 ('byte-order', cx.l('lendian') == le)]
 
     contract(w, 'txdbus.message.parseMessage', {'rawMessage': BYTES, 'oobFDs': OPAQUE}, result=Ref('DBusMessage'),
@@ -309,7 +347,7 @@ def build(tier='quick'):
                        'required header attributes are set when _marshal runs (the constructors assign them; constructor validation is C18); oobFDs None (the unix_fds header is C20)',
                        'ground facts of the type grammar about the fixed header signature yyyyuua(yv)',
                        'conformant input to parseMessage: header field 8, if present, carries a string',
-                       'parseMessage: WHICH value each header attribute receives (last field with its code, unknown codes ignored) is covered by the bounded part only; the loop invariant proves the other attributes are not disturbed'],
+                       'parseMessage: header attributes are dynamically typed (whatever variant the field carried); the typed header tuple is the decoding named by hdr_int / hdr_fields'],
               notes=['serial wrap-around after 2^32 messages is not considered (struct.error at that point)'],
               explanation='_marshal of all four message classes and parseMessage verified against the message layout of the specification for every field combination, flag and body; construct/parse comparison with a reference codec on top',
               design_ref='DESIGN.md 4/C03')
